@@ -16,3 +16,87 @@ __CPROVER_ensures (V_SIZ (x) != 0 ==> __CPROVER_return_value == (V_BITS (x) + V_
     harness='void h_mpz_sizeinbase_pow2 (void) {\n' + mpz_obj('X') + '  int base = nondet_int ();\n  __gmpz_sizeinbase (&X, base);\n}',
     selftest=[('__gmpz_sizeinbase', r'\+ __lb_base - 1\)', '+ __lb_base)')],
 ))
+
+# ------------------------------------------------------------------ mpn_get_str for power-of-two bases: EVERY digit is the right k-bit field of the operand
+# digit j (0 = most significant) of a D-digit output is bits [(D-1-j)k, (D-j)k) of {up,un}; D = ceil(bitlength / k).  Unbounded in un, one unit per base.
+GS_CONTRACT = '''#define V_NBITS(p,n) ((unsigned long) (n) * 64 - (unsigned long) __builtin_clzl ((p)[(n) - 1]))
+#define V_ND(p,n,k) ((long) ((V_NBITS (p, n) + (k) - 1) / (k)))
+/* k-bit field of {p,n} whose lowest bit is bit o (zero beyond limb n-1) */
+#define V_FIELD(p,n,o,k) ((((p)[(o) / 64] >> ((o) % 64)) | ((((o) % 64) + (k) > 64 && (o) / 64 + 1 < (n)) ? (p)[(o) / 64 + 1] << (64 - ((o) % 64)) : 0)) & ((1UL << (k)) - 1))
+size_t __gmpn_get_str (unsigned char *str, int base, mp_ptr up, mp_size_t un)
+__CPROVER_requires (base == V_BASE && 0 <= un && un <= V_NMAX && (un == 0 || (V_R_OK (up, un) && up[un - 1] != 0)))
+__CPROVER_requires (__CPROVER_w_ok (str, (64 * un + V_KC - 1) / V_KC + 1) && !__CPROVER_same_object (str, up) && 0 <= gj && gj <= 64 * V_NMAX)
+__CPROVER_assigns (__CPROVER_object_upto (str, (64 * un + V_KC - 1) / V_KC + 1))
+__CPROVER_ensures (un == 0 ==> (__CPROVER_return_value == 1 && str[0] == 0))
+__CPROVER_ensures (un != 0 ==> __CPROVER_return_value == (size_t) V_ND (up, un, V_KC))
+__CPROVER_ensures ((un != 0 && gj < V_ND (up, un, V_KC)) ==> str[gj] == V_FIELD (up, un, (unsigned long) (V_ND (up, un, V_KC) - 1 - gj) * V_KC, V_KC));
+'''
+def _getstr(base):
+    W = '(s - str)'
+    common = ('(bits_per_digit == V_KC && base == V_BASE && 1 <= un && un <= V_NMAX && s >= str && __CPROVER_same_object (s, str) && 0 <= i && i <= un - 1 && n1 == up[i] '
+              '&& V_D == V_ND (up, un, V_KC) && 0 <= WW && WW <= V_D && ((0 <= gj && gj < WW) ==> str[gj] == V_FIELD (up, un, (unsigned long) (V_D - 1 - gj) * V_KC, V_KC))').replace('WW', W)
+    inv0 = common + ' && 1 <= bit_pos && bit_pos <= 63 + V_KC && (long) i * 64 + bit_pos == (V_D - WW) * V_KC)'.replace('WW', W)
+    inv1 = common + ' && -V_KC <= bit_pos && bit_pos <= 63 && (long) i * 64 + bit_pos == (V_D - WW - 1) * V_KC)'.replace('WW', W)
+    hv = '{ long V_w = nondet_long (); __CPROVER_assume (0 <= V_w && V_w <= V_D); s = str + V_w; }'
+    sl = [('str', '(64 * un + V_KC - 1) / V_KC + 1')]
+    return dict(
+        name='mpn_get_str_b%d' % base, props=['C06', 'C04', 'C15'], source='mpn/generic/get_str.c', extra_sources=['mpn/mp_bases.c'], contracts=['mpn.h'],
+        contract_text=('#define V_BASE %d\n#define V_KC %d\n' % (base, base.bit_length() - 1)) + GS_CONTRACT, enforce=['__gmpn_get_str'],
+        functions={'__gmpn_get_str': dict(
+            inserts=[(r'i = un - 1;\s*for \(;;\)', r'long V_D = bits / bits_per_digit; \g<0>')],
+            loops={0: dict(scalars=['i', 'bit_pos', 'n1', 'n0'], havoc_targets=['s'], local_to_body=['V_w'], havoc=hv, slices=sl, inv=inv0, dec='((long) i * 64 + bit_pos)'),
+                   1: dict(scalars=['bit_pos'], havoc_targets=['s'], havoc=hv, slices=sl, inv=inv1, dec='(bit_pos + V_KC)'),
+                   2: 'unreachable', 3: 'unreachable', 4: 'unreachable', 5: 'unreachable'})},
+        assumptions=['base %d only (one unit per power-of-two base 2..256); the general-base path (mpn_sb_get_str, mpn_dc_get_str, powers table) is unreachable here and has no unit' % base],
+        harness='''void h_mpn_get_str_b%d (void) {
+  mp_size_t un = nondet_long (); __CPROVER_assume (0 <= un && un <= V_NMAX);
+  mp_limb_t *up = malloc (un * 8); unsigned char *str = malloc ((64 * un + V_KC - 1) / V_KC + 1);
+  __CPROVER_assume (up != (void *) 0 && str != (void *) 0);
+  gj = nondet_long ();
+  __gmpn_get_str (str, V_BASE, up, un);
+}''' % base, timeout=1200,
+        selftest=[('__gmpn_get_str', r'n0 = \(n1 << -bit_pos\)', 'n0 = (n1 << (-bit_pos - 1))'), ('__gmpn_get_str', r'bits \+= bits_per_digit - cnt;', 'bits += bits_per_digit;')] if base in (8, 16) else [])
+for _b in (2, 4, 8, 16, 32, 64, 128, 256):
+    UNITS.append(_getstr(_b))
+
+# ------------------------------------------------------------------ mpn_set_str for power-of-two bases: the inverse relation - every digit lands in its k-bit field
+# digit m counted from the LEAST significant end (str[len-1-m]) is bits [mk, mk+k) of the result; bits at or above len*k are zero
+SS_CONTRACT = '''#define V_SL(t,rp,size,top) ((t) < (size) ? (rp)[t] : ((t) == (size) ? (top) : (mp_limb_t) 0))          /* limbs written so far + the limb being assembled */
+#define V_SFIELD(o,rp,size,top) (((V_SL ((long) ((o) / 64), rp, size, top) >> ((o) % 64)) | ((((o) % 64) + V_KC > 64) ? V_SL ((long) ((o) / 64) + 1, rp, size, top) << (64 - ((o) % 64)) : 0)) & ((1UL << V_KC) - 1))
+mp_size_t __gmpn_set_str (mp_ptr rp, const unsigned char *str, size_t str_len, int base)
+__CPROVER_requires (base == V_BASE && 1 <= str_len && str_len <= (size_t) V_NMAX && __CPROVER_r_ok (str, str_len) && V_W_OK (rp, (str_len * V_KC + 63) / 64) && !__CPROVER_same_object (str, rp))
+__CPROVER_requires (0 <= gj && gj <= V_NMAX)
+__CPROVER_assigns (__CPROVER_object_upto (rp, ((str_len * V_KC + 63) / 64) * 8))
+/* size: all full limbs, plus the partial top limb when it is non-zero */
+__CPROVER_ensures (__CPROVER_return_value == (mp_size_t) (str_len * V_KC / 64) || __CPROVER_return_value == (mp_size_t) (str_len * V_KC / 64) + 1)
+__CPROVER_ensures ((unsigned long) gj < str_len ==> V_SFIELD ((unsigned long) gj * V_KC, rp, __CPROVER_return_value, (mp_limb_t) 0) == str[str_len - 1 - gj])
+__CPROVER_ensures ((__CPROVER_return_value == (mp_size_t) (str_len * V_KC / 64) + 1) ==> (rp[str_len * V_KC / 64] != 0 && (rp[str_len * V_KC / 64] >> ((str_len * V_KC) % 64)) == 0));
+'''
+def _setstr(base):
+    k = base.bit_length() - 1
+    C = '((str + str_len - 1) - s)'
+    inv = ('(bits_per_indigit == V_KC && base == V_BASE && 1 <= str_len && str_len <= (size_t) V_NMAX && __CPROVER_same_object (s, str) && 0 <= CC && (unsigned long) CC <= str_len '
+           '&& size == (mp_size_t) ((unsigned long) CC * V_KC / 64) && next_bitpos == (int) ((unsigned long) CC * V_KC % 64) && (res_digit >> next_bitpos) == 0 '
+           '&& ((0 <= gj && gj < CC) ==> V_SFIELD ((unsigned long) gj * V_KC, rp, size, res_digit) == str[str_len - 1 - gj]))').replace('CC', C)
+    return dict(
+        name='mpn_set_str_b%d' % base, props=['C06', 'C04', 'C15'], source='mpn/generic/set_str.c', extra_sources=['mpn/mp_bases.c'], contracts=['mpn.h'],
+        contract_text=('#define V_BASE %d\n#define V_KC %d\n' % (base, k)) + SS_CONTRACT, enforce=['__gmpn_set_str'],
+        functions={'__gmpn_set_str': dict(
+            inserts=[(r'int inp_digit = \*s;', r'\g<0> __CPROVER_assume (0 <= inp_digit && inp_digit < V_BASE);')],
+            loops={0: dict(scalars=['size', 'next_bitpos', 'res_digit'], havoc_targets=['s'], local_to_body=['inp_digit'],
+                           havoc='{ long V_c = nondet_long (); __CPROVER_assume (0 <= V_c && (unsigned long) V_c < str_len); s = str + (str_len - 1 - V_c); }',
+                           slices=[('rp', '((str_len * V_KC + 63) / 64) * 8')], inv=inv, dec='(s - str + 1)',
+                           incr_as=dict(cond='s >= str', incr='s--', exit_when='s == str'))})},
+        assumptions=['base %d only (one unit per power-of-two base); precondition "every input digit is below the base" is instantiated by a woven assume at the digit each iteration reads; the general-base path has no unit' % base,
+                     'the loop header `for (s = str + len - 1; s >= str; s--)` ends with s one below str (ISO C undefined, flat memory with gcc): the cut tests s == str before the decrement instead; s is dead after the loop'],
+        harness='''void h_mpn_set_str_b%d (void) {
+  size_t len = nondet_ulong (); __CPROVER_assume (1 <= len && len <= (size_t) V_NMAX);
+  unsigned char *str = malloc (len); mp_limb_t *rp = malloc (((len * V_KC + 63) / 64) * 8);
+  __CPROVER_assume (str != (void *) 0 && rp != (void *) 0);
+  gj = nondet_long ();
+  __gmpn_set_str (rp, str, len, V_BASE);
+}''' % base, timeout=1200,
+        selftest=[('__gmpn_set_str', r'res_digit = inp_digit >> \(bits_per_indigit - next_bitpos\);', 'res_digit = inp_digit >> (bits_per_indigit - next_bitpos - 1);'),
+                  ('__gmpn_set_str', r'if \(next_bitpos >= \(64 - 0\)\)', 'if (next_bitpos > (64 - 0))')] if base in (8, 16) else [])
+for _b in (2, 4, 8, 16, 32, 64, 128, 256):
+    UNITS.append(_setstr(_b))
